@@ -45,6 +45,29 @@ def run_traversal(c, mode, inverse, starts, tsu, probe=True):
     return log
 
 
+def deep_shared_circuit(rng, height):
+    """a deep DAG with sharing across depths (two interleaved chains whose rungs also read gates far below):
+    the DFS work list of such a circuit holds many pending and repeated labels"""
+    order = [('a', 'INPUT', []), ('b', 'INPUT', [])]
+    left, right = ['a'], ['b']
+    for h in range(height):
+        far_l = rng.choice(left[: max(1, len(left) // 2)])
+        far_r = rng.choice(right[: max(1, len(right) // 2)])
+        order.append((f'l{h}', rng.choice(['AND', 'OR', 'XOR']), [left[-1], right[-1], far_r]))
+        order.append((f'r{h}', rng.choice(['AND', 'OR', 'XOR']), [right[-1], left[-1], far_l]))
+        left.append(f'l{h}')
+        right.append(f'r{h}')
+    users = {}
+    for l, t, ops in order:
+        for o in ops:
+            users.setdefault(o, []).append(l)
+    gates = list(order)
+    if rng.random() < 0.5:
+        rng.shuffle(gates)
+    return {'inputs': ['a', 'b'], 'outputs': [left[-1], right[-1], left[len(left) // 2]], 'gates': gates,
+            'users': list(users.items()), 'blocks': []}
+
+
 def cyclic_variant(rng, dump):
     """redirect one operand to a downstream gate (keeps the users index consistent)"""
     gates = [list(g) for g in dump['gates']]
@@ -157,7 +180,10 @@ def has_cycle_from(ops, starts):
 def oracle(case_or_dump, rng_seed=0):
     import random
     dump = case_or_dump
-    rng = random.Random(rng_seed)
+    # the random choices (start sets, among them the EMPTY start list) differ from circuit to circuit but are a
+    # function of the circuit alone, so that a replay makes the same choices
+    import zlib
+    rng = random.Random(rng_seed + zlib.crc32(repr([(k, t, list(o)) for k, t, o in dump['gates']]).encode()))
     ops, users = graph(dump)
     if any(x not in ops for o in ops.values() for x in o) or any(o not in ops for o in dump['outputs']):
         return None
@@ -192,7 +218,9 @@ def oracle(case_or_dump, rng_seed=0):
     for mode in ('DFS', 'BFS'):
         for inverse in (False, True):
             for tsu in (False, True):
-                starts = None if rng.random() < 0.3 else [rng.choice(labels) for _ in range(rng.randint(0, 3))] if labels else None
+                r_ = rng.random()
+                starts = None if r_ < 0.3 else [] if r_ < 0.4 else list(labels) if r_ < 0.5 else \
+                    [rng.choice(labels) for _ in range(rng.randint(0, 3))] if labels else None
                 log = run_traversal(c, mode, inverse, starts, tsu)
                 eff = starts if starts is not None else (dump['inputs'] if inverse else dump['outputs'])
                 nexts = users if inverse else ops
